@@ -275,11 +275,17 @@ EncVecs(lazy) ==
    {[kind |-> "enc", sub |-> "srpol", u |-> p] : p \in PolicyPool}
    \cup {[kind |-> "enc", sub |-> "pmsi", u |-> p] : p \in PmsiPool}
    \cup {[kind |-> "enc", sub |-> "srte", u |-> n] : n \in SrtePool}
+   \* PMSI tunnel attribute next to an EVPN inclusive-multicast route and an Encapsulation extended community (the label
+   \* field then holds a 24-bit VNI for VXLAN 8 / NVGRE 9; for the other tunnel types construction fails or stays valid)
+   \cup {[kind |-> "enc", sub |-> "pmsievpn", u |-> [p |-> p, encap |-> n, form |-> f]] :
+            p \in {x \in PmsiPool : x.leaf = 0 /\ x.label = 1234 /\ ((x.ttype = 6 /\ Len(x.id) = 4) \/ (x.ttype = 0 /\ x.id = <<>>))},
+            n \in {0, 1, 7, 8, 9, 10, 11, 13, 15, 255}, f \in {"list", "text"}}
    \cup {[kind |-> "enc", sub |-> "fs6", u |-> [nh |-> nh, rules |-> <<r>>]] : nh \in {<<>>}, r \in Fs6Rules(0)}
    \cup {[kind |-> "enc", sub |-> "fs6", u |-> [nh |-> Nh6, rules |-> <<r1, r2>>]] : r1, r2 \in {<<<<1, <<64, 0, A6a>>>>>>, <<<<3, <<FsOp("=", 1, <<6>>)>>>>>>}}
 \* values for which the RFCs define an encoding (the others are in the pool to see that construction fails or stays valid)
 ValidEnc(v) ==
-   CASE v.sub = "pmsi" -> (v.u.ttype = 0 => v.u.id = <<>>) /\ (v.u.ttype = 6 => v.u.id # <<>>) /\ (v.u.ttype \notin {0, 6} => v.u.id = <<>>)
+   CASE v.sub = "pmsievpn" -> TRUE
+     [] v.sub = "pmsi" -> (v.u.ttype = 0 => v.u.id = <<>>) /\ (v.u.ttype = 6 => v.u.id # <<>>) /\ (v.u.ttype \notin {0, 6} => v.u.id = <<>>)
      [] v.sub = "srte" -> Len(v.u.nh) \in {4, 16}
      [] v.sub = "srpol" -> \A i \in 1..Len(v.u.name) : v.u.name[i] < 128
      [] OTHER -> TRUE
@@ -289,6 +295,12 @@ EncBytes(v) ==
        mp(val) == LET a == EncAttrs(MpBase, TRUE, FALSE) \o AttrTLV(14, val, TRUE) IN Message(2, U16(0) \o U16(Len(a)) \o a)
    IN CASE v.sub = "srpol" -> withAttr(23, EncTunnelEncaps(v.u), TRUE)
         [] v.sub = "pmsi" -> withAttr(22, EncPmsi(v.u), FALSE)
+        [] v.sub = "pmsievpn" ->
+              LET rt == <<3, [rd |-> Rd0, tag |-> <<0, 0>>, ip |-> <<192, 168, 0, 1>>]>>
+                  lab == IF v.u.form = "list" /\ v.u.encap \in {8, 9} THEN U24(v.u.p.label) ELSE U24(v.u.p.label * 16)
+                  a == EncAttrs(MpBase, TRUE, FALSE) \o AttrTLV(14, EncMpReach("evpn", Nh4, <<rt>>), TRUE)
+                       \o AttrTLV(16, <<3, 12, 0, 0, 0, 0>> \o U16(v.u.encap), FALSE) \o AttrTLV(22, <<v.u.p.leaf, v.u.p.ttype>> \o lab \o v.u.p.id, FALSE)
+              IN Message(2, U16(0) \o U16(Len(a)) \o a)
         [] v.sub = "srte" -> mp(U16(v.u.afi) \o <<73, Len(v.u.nh)>> \o v.u.nh \o <<0>> \o EncSrteNlri(v.u))
         [] v.sub = "fs6" -> mp(U16(2) \o <<133, Len(v.u.nh)>> \o v.u.nh \o <<0>> \o Flatten([i \in 1..Len(v.u.rules) |-> EncRule6(v.u.rules[i])]))
 FsPool ==
